@@ -182,7 +182,15 @@ func sortClassChars(g *gspec.Grammar) {
 	for _, r := range g.Rules {
 		gspec.Walk(r.Expr, func(e *gspec.Expr) {
 			if e.K == gspec.KClass {
+				// as a set: the printer writes a member hyphen once, as the first member
 				sort.Slice(e.Chars, func(i, j int) bool { return e.Chars[i] < e.Chars[j] })
+				var uniq []rune
+				for i, c := range e.Chars {
+					if i == 0 || c != e.Chars[i-1] {
+						uniq = append(uniq, c)
+					}
+				}
+				e.Chars = uniq
 			}
 		})
 	}
